@@ -149,15 +149,15 @@ def convert_link_lookup(prop="C11"):
         in_ctx = z3.If(FC_RAISES(ctx(v0), nm, ent), 0, FIND_CHILD(ctx(v0), nm, ent))
         in_par = z3.If(z3.And(in_ctx == 0, par(v0) != 0), z3.If(FC_RAISES(par(v0), nm, ent), 0, FIND_CHILD(par(v0), nm, ent)), in_ctx)
         local = z3.If(ctx(v0) != 0, in_par, 0)
-        with_child = z3.If(z3.And(z3.Length(cn) > 0, local != 0), FIND_CHILD(local, cn, ce), local)
+        # (a kind of child the found item cannot have finds nothing, like a child that does not exist: warning, then the project-wide lookup and the fall-back to the parent part)
+        with_child = z3.If(z3.And(z3.Length(cn) > 0, local != 0), z3.If(FC_RAISES(local, cn, ce), 0, FIND_CHILD(local, cn, ce)), local)
         glob = z3.If(with_child == 0, PROJ_FIND(nm, ent, cn, ce), with_child)
         fallback = z3.If(z3.And(z3.Length(cn) > 0, glob == 0), PROJ_FIND(nm, ent, z3.StringVal(""), z3.StringVal("")), glob)
         return fallback, local
     c.ensures("item_is_the_documented_lookup",
               lambda v0, res, v1: (v1.item if v1.has("item") and isinstance(v1.val("item"), SRef) else z3.IntVal(0)) == oracle(v0)[0])
-    c.raises("only_when_the_child_part_cannot_exist_in_the_found_item",
-             lambda v0, exc, v1: z3.And(z3.BoolVal(exc == "ValueError"), z3.Length(G["child_name"]) > 0, oracle(v0)[1] != 0,
-                                        FC_RAISES(oracle(v0)[1], G["child_name"], G["child_entity"])))
+    # no reference, however ill-formed, aborts the run (the property: "rendered as plain text with a warning")
+    c.no_raise = True
     return c
 
 
